@@ -149,9 +149,10 @@ func (w *worker) call(req *request, timeout time.Duration) callResult {
 }
 
 type pool struct {
-	n        int
-	reqTO    time.Duration
-	recycleN int
+	n         int
+	reqTO     time.Duration
+	recycleN  int
+	stopEarly func() bool
 }
 
 // runAll executes the requests on n workers; results are delivered in request order.
@@ -269,6 +270,9 @@ func (p *pool) runAll(reqs []*request, onResult func(i int, o *Outcome, log []st
 		}
 		mu.Lock()
 		tooMany := skipped > 40
+		if p.stopEarly != nil && p.stopEarly() {
+			tooMany = true // (VERIF_STOP_AT_FIRST: a violation was found, the rest of the budget is not spent)
+		}
 		mu.Unlock()
 		if tooMany {
 			// the tree hangs or dies on many scenarios: the violation is established, stop here
@@ -419,6 +423,11 @@ func runDriver(prop, tier string, seed int64, from, count, nworkers int, verif, 
 	foreignDetail := map[string]string{}
 	var harnessErrs []string
 	p := &pool{n: nworkers, reqTO: watchdogTimeout(), recycleN: 2000}
+	if os.Getenv("VERIF_STOP_AT_FIRST") != "" {
+		// for re-evaluating many seeded changes: stop dispatching once a violation that is not a recorded finding
+		// has been seen (called with the result lock held)
+		p.stopEarly = func() bool { return len(firstByFP) > 0 }
+	}
 	done, truncated, inconclusive := p.runAll(reqs, func(i int, o *Outcome, _ []string) {
 		if o.Error != "" {
 			harnessErrs = append(harnessErrs, fmt.Sprintf("index %d: %s", o.Index, o.Error))
@@ -574,12 +583,12 @@ func runDriver(prop, tier string, seed int64, from, count, nworkers int, verif, 
 	}
 	fmt.Printf("sim: %d scenarios, %d distinct non-trivial, %d simulated processes, %.1f simulated s, %.1fs wall, violations=%d known=%d inconclusive=%d\n",
 		done, len(distinct), procs, float64(simMillis)/1000, wall, violations, stats["known_finding_hits"], inconclusive)
+	if violations > 0 {
+		return 1
+	}
 	if len(distinct) < 2 {
 		fmt.Fprintln(os.Stderr, "sim: fewer than 2 distinct non-trivial cases — the search did not reach the property")
 		return 2
-	}
-	if violations > 0 {
-		return 1
 	}
 	return 0
 }
